@@ -36,6 +36,7 @@ from sqlalchemy import (
     LargeBinary,
     String,
     and_,
+    bindparam,
     create_engine,
     event,
     inspect,
@@ -2961,8 +2962,15 @@ class RedunBackendDb(RedunBackend):
         """
         assert self.session
 
+        # A tag value of None is stored as JSON null. Casting a plain None would compare against
+        # SQL NULL and never match, so bind it explicitly as a JSON value.
         conditions = [
-            and_(Tag.key == key, Tag.value == sa_cast(value, JSON)) for key, value in tags
+            and_(
+                Tag.key == key,
+                Tag.value
+                == sa_cast(value if value is not None else bindparam(None, None, type_=JSON), JSON),
+            )
+            for key, value in tags
         ]
         if keys:
             conditions.append(Tag.key.in_(keys))
